@@ -1,6 +1,6 @@
 #!/bin/bash
 # tools/run_all.sh [tier] : run every claimed check sequentially, print one summary line each
-cd /verif
+cd "$(dirname "$(dirname "$(realpath "$0")")")"
 TIER=${1:-quick}
 for id in $(python3 -c "import json; print(' '.join(c['property_id'] for c in json.load(open('MANIFEST.json'))['checks']))"); do
   s=$(date +%s)
